@@ -154,12 +154,13 @@ PROFILES = [
     },
     {
         # the capturing binder sits two quantifiers deep inside the sibling conjunct and the outer
-        # one binds a third variable (exists v.((v == v2) & exists v3. forall v2. q(v))): a
-        # capture test that stops at the first quantifier it meets misses it (seed C11-3)
+        # one binds a third variable (exists v.((v == v2) & exists v3. forall v2. q(v))): both
+        # binders' variables are used (an unused one is dropped first, which flattens the nest); a capture
+        # test that stops at the first quantifier it meets misses it (seed C11-3)
         "name": "capture-deep",
         "leaves": [
             ("eq", V, V2),
-            ("forall", (("v2", "A"),), FL("q", V)),
+            ("forall", (("v2", "A"),), ("or", FL("q", V), FL("q", V2), FL("q", V3))),
             ("exists", (("v2", "A"),), ("and", FL("q", V), FL("q", V2))),
             FL("q", V3),
         ],
